@@ -807,47 +807,98 @@ def classify_typed_equality(v, mod, sym):
 
 
 def r8_program_identity(ctx, sym, rule='R8', entry='parse_program'):
-    ctx.rule(rule, "the tree the ensure_*/prevent_* checks and find_matches walk is the tree of the code asked for: reparse_if_needed "
-                   "(decision table by abstract interpretation over call sequences with and without explicit "
-                   "student_code, cached or not) leaves cait['ast'] bound to the parse of the requested code")
+    ctx.rule(rule, "the tree the ensure_*/prevent_* checks and find_matches walk is the tree of the code asked for: "
+                   "reparse_if_needed (decision table by abstract interpretation over histories of queries with and "
+                   "without explicit student_code, source.verify() runs on the submission or on explicit code - the "
+                   "real verify, executed too -, and the submission's text being replaced under the same file name) "
+                   "leaves cait['ast'] bound to the parse of the requested code")
     mod = ctx.repo.module('pedal.cait.cait_api')
     fn = mod.func('reparse_if_needed')
     ctx.analysed_function(mod, fn)
+    smod = ctx.repo.module('pedal.source.source')
+    verify_fn = smod.func('verify')
+    ctx.analysed_function(smod, verify_fn)
     tool = sym.const(mod, ast.parse('TOOL_NAME', mode='eval').body)
     src_tool = sym.const(mod, ast.parse('SOURCE_TOOL_NAME', mode='eval').body)
     from ..fdeval import Raised
-    # 'BAD' is explicit code CPython rejects: the query on it finds nothing, and must not change what later queries
-    # on other code find
+    # a step is a CAIT query (None = the submission, 'OTHER'/'THIRD' = explicit code, 'BAD' = explicit code CPython
+    # rejects), ('verify', code-or-None) = the source tool checks that code, ('replace', text) = the submission's main
+    # code is replaced under the same file name and verified (set_source / next_section)
+    V, R = 'verify', 'replace'
     sequences = [[None], [None, None], ['OTHER', None], [None, 'OTHER', None], ['OTHER', 'OTHER', None, 'THIRD', None],
                  ['OTHER'], ['BAD', None], [None, 'BAD', None], ['BAD', 'OTHER'], ['BAD', 'BAD', None],
-                 ['OTHER', 'BAD', 'OTHER']]
+                 ['OTHER', 'BAD', 'OTHER'],
+                 [None, (R, 'MAIN2'), None], [None, (R, 'MAIN2'), None, (R, 'MAIN'), None], [(R, 'MAIN2'), None, 'OTHER', None],
+                 [(V, 'OTHER'), None], [(V, None), (V, 'OTHER'), None], [None, (V, 'OTHER'), None],
+                 [(V, 'OTHER'), 'OTHER', None], [(V, 'BAD'), None]]
     from .. import symexec
     reset_fn = mod.functions.get('reset')
     for source_ok in (True, False):
         for seq in sequences:
             source = {'success': source_ok, 'ast': ('source-ast', 'MAIN')}
             store = {}
-            report = Obj('report', submission=Obj('submission', main_code='MAIN'))
+            submission = Obj('submission', main_code='MAIN', main_file='answer.py', files={'answer.py': 'MAIN'},
+                             load_error=None, line_offsets={})
+            report = Obj('report', submission=submission)
             report.attrs['method:__getitem__'] = lambda k: source if k == src_tool else store[k]
             report.attrs['method:__setitem__'] = lambda k, v: store.__setitem__(k, v)
 
+            import builtins as _builtins
+
             def parse(c, *a, **k):
                 if c == 'BAD':
-                    raise Raised('SyntaxError', 'invalid syntax')
+                    raise Raised('SyntaxError', 'invalid syntax', payload=Obj(
+                        'exception', exc_kind='SyntaxError', lineno=1, offset=1, filename='answer.py', msg='invalid',
+                        end_lineno=None, end_offset=None, text=None))
                 return ('parsed', c)
             fd = symexec.new_fd(sym, mod, calls={'ast.parse': parse, 'system_error': lambda *a, **k: None,
                                                  'CaitNode': lambda a, report=None: ('cait', a)},
                                 extra={'MAIN_REPORT': report})
+
+            def b_isinstance(o, t):
+                ts = t if isinstance(t, tuple) else (t,)
+                if isinstance(o, Obj) and 'exc_kind' in o.attrs:
+                    k_ = getattr(_builtins, o.attrs['exc_kind'])
+                    return any(isinstance(x, type) and issubclass(k_, x) for x in ts)
+                return isinstance(o, tuple(x for x in ts if isinstance(x, type)))
+            quiet = lambda *a, **k: None
+            vcalls = {'ast.parse': lambda c, *a, **k: ('source-ast', c) if c != 'BAD' else parse(c),
+                      'syntax_error': quiet, 'indentation_error': quiet, 'blank_source': quiet,
+                      'source_file_not_found': quiet, 'sys.exc_info': lambda: ('T', 'E', None),
+                      'isinstance': b_isinstance}
+            vextra = {k_: getattr(_builtins, k_) for k_ in ('SyntaxError', 'IndentationError', 'TabError', 'Exception',
+                                                            'ValueError', 'BaseException')}
+            vextra.update(MAIN_REPORT=report, syntax_error=quiet, indentation_error=quiet)
+            vfd = symexec.new_fd(sym, smod, calls=vcalls, extra=vextra)
             # the tool's own reset() builds the per-report data (whatever keys it uses)
             if reset_fn is not None:
                 symexec.run(fd, reset_fn, [], {'report': report}, what='cait reset')
             else:
                 store[tool] = {'cache': {}, 'ast': None, 'success': True, 'error': None}
             cait = store[tool]
-            for i, code in enumerate(seq):
+            if source_ok:
+                # the usual setting: the environment verified the submission before the instructor script runs
+                _, vraised = symexec.run(vfd, verify_fn, [], {'report': report}, what='source.verify')
+                if vraised is not None:
+                    raise AnalysisError("source.verify raises %s in the program-identity model" % vraised.kind)
+            for i, step in enumerate(seq):
+                if isinstance(step, tuple):
+                    kind_, text = step
+                    if kind_ == R:
+                        submission.attrs['main_code'] = text
+                        submission.attrs['files']['answer.py'] = text
+                        text = None
+                    if source_ok:
+                        # the source tool is in use: it (re)checks the text
+                        _, vraised = symexec.run(vfd, verify_fn, [], dict({'report': report}, **(
+                            {'code': text} if text is not None else {})), what='source.verify')
+                        if vraised is not None:
+                            raise AnalysisError("source.verify raises %s in the program-identity model" % vraised.kind)
+                    continue
+                code = step
                 got, raised = symexec.run(fd, fn, [], {'student_code': code, 'report': report},
                                           what='reparse_if_needed')
-                want_code = code if code is not None else 'MAIN'
+                want_code = code if code is not None else submission.attrs['main_code']
                 tree = cait['ast']
                 if raised is not None:
                     ok = False
@@ -856,14 +907,16 @@ def r8_program_identity(ctx, sym, rule='R8', entry='parse_program'):
                 else:
                     ok = got is cait and bool(cait['success']) and isinstance(tree, tuple) and tree[0] == 'cait' \
                         and tree[1][1] == want_code
-                key = 'reparse_if_needed[%s,source_ok=%s]@%d' % (','.join(str(c) for c in seq), source_ok, i)
+                show = [s_ if not isinstance(s_, tuple) else '%s(%s)' % s_ for s_ in seq]
+                key = 'reparse_if_needed[%s,source_ok=%s]@%d' % (','.join(str(c) for c in show), source_ok, i)
                 ctx.check(ok, rule, key, mod, fn,
-                          "after the calls %s the static checks are handed the tree %r with success=%r%s; expected %s" % (
-                              seq[:i + 1], tree, cait.get('success'), '' if raised is None else ' (raises %s)' %
+                          "after the history %s the static checks are handed the tree %r with success=%r%s; expected %s" % (
+                              show[:i + 1], tree, cait.get('success'), '' if raised is None else ' (raises %s)' %
                               raised.kind, 'success=False' if code == 'BAD' else 'the parse of %r with success=True' %
                               want_code),
                           "find_asts('For', student_code=REFERENCE) followed by ensure_ast('While') on the submission: "
-                          "the check counts nodes of the reference solution", construct='reparse_if_needed')
+                          "the check counts nodes of the reference solution; verify(snippet) before the first CAIT "
+                          "query: every check answers for the snippet", construct='reparse_if_needed')
                 if not ok:
                     break
     pp = mod.func(entry)
